@@ -3,9 +3,8 @@
 use std::io::{BufRead, Write};
 use std::panic::{catch_unwind, AssertUnwindSafe};
 
-mod fam_varint;
-mod fam_classic;
 pub mod util;
+include!(concat!(env!("OUT_DIR"), "/fams.rs"));
 
 pub fn unhex(s: &str) -> Vec<u8> {
     if s == "-" { return vec![]; }
@@ -27,11 +26,7 @@ fn main() {
         let line = line.trim();
         if line.is_empty() || line.starts_with('#') { continue; }
         let toks: Vec<&str> = line.split_whitespace().collect();
-        let r = catch_unwind(AssertUnwindSafe(|| match fam {
-            "varint" => fam_varint::run(&toks),
-            "classic" => fam_classic::run(&toks),
-            _ => panic!("unknown family {fam}"),
-        }));
+        let r = catch_unwind(AssertUnwindSafe(|| dispatch(fam, &toks)));
         match r {
             Ok(s) => writeln!(out, "{s}").unwrap(),
             Err(e) => {
